@@ -405,6 +405,22 @@ def match_known(pid: str, signature: str, known: list) -> Optional[dict]:
 # the check
 
 
+def _sample_iter(it, k: int, rng: random.Random, seconds: float) -> list:
+    """reservoir sample of at most k items of an iterator, reading it for at most `seconds` (enumerations can hold millions)"""
+    out: list = []
+    t0 = time.time()
+    for i, x in enumerate(it):
+        if len(out) < k:
+            out.append(x)
+        else:
+            j = rng.randrange(i + 1)
+            if j < k:
+                out[j] = x
+        if i % 4096 == 0 and time.time() - t0 > seconds:
+            break
+    return out
+
+
 def _sha(s: str) -> str:
     return hashlib.sha1(s.encode()).hexdigest()[:12]
 
@@ -551,9 +567,7 @@ def run_check(modname: str, tier: str, seed: int, replay: Optional[str] = None) 
             k += 1
             more = [c for c in prop.generate(random.Random(seed + 7919 * k), tier) if c.line not in seen_lines]
             if k == 1 and tier != "thorough" and prop.enumerate_thorough:
-                enum = [c for c in prop.enumerate_thorough() if c.line not in seen_lines]
-                if len(enum) > 40000:
-                    enum = random.Random(seed).sample(enum, 40000)
+                enum = [c for c in _sample_iter(prop.enumerate_thorough(), 40000, random.Random(seed), 40) if c.line not in seen_lines]
                 for c in enum:
                     c.origin = "enum"
                 more += enum
@@ -608,10 +622,7 @@ def run_check(modname: str, tier: str, seed: int, replay: Optional[str] = None) 
                 if len(extra) > cap:
                     break
             if prop.enumerate_thorough and tier != "thorough":
-                enum = list(prop.enumerate_thorough())
-                if len(enum) > cap:
-                    enum = r2.sample(enum, cap)
-                extra += enum
+                extra += _sample_iter(prop.enumerate_thorough(), cap, r2, 40)
             for c in extra:
                 c.origin = "search"
             log(f"proof_ok={proof_ok} corr_ok={corr_ok}: searching {len(extra)} further inputs with the oracle")
